@@ -952,23 +952,14 @@ def eval_dyad_split(a, b, backend):
     b = backend.str_to_chr_arr(b) if j else b
 
     a = a if bknp.isarray(a) else [a]
-    if len(a) == 1:
-        if a[0] >= len(b):
-            r = [b]
-        else:
-            k = len(b) // a[0]
-            if (k*a[0]) < len(b):
-                k += 1
-            r = bknp.array_split(b, k)
-    else:
-        p, q = 0, 0
-        r = []
-        while q < len(b):
-            r.append(b[q:q+a[p]])
-            q += a[p]
-            p += 1
-            if p >= len(a):
-                p = 0
+    p, q = 0, 0
+    r = []
+    while q < len(b):
+        r.append(b[q:q+a[p]])
+        q += a[p]
+        p += 1
+        if p >= len(a):
+            p = 0
 
     return bknp.asarray(["".join(x) for x in r],dtype=object) if j else backend.kg_asarray(r)
 
